@@ -1161,11 +1161,20 @@ func c18Gen(r *rand.Rand) (C18Case, []C18Write) {
 		if r.Intn(2) == 0 {
 			links = []string{"l2", "l1"}
 		}
+		// hierarchy shape: the two intermediate hops of a 3-hop path stay inside one dataset (office -> sub-office), so
+		// an entity reached at level 1 is often reached again at level 2
+		hier := hops == 3 && r.Intn(3) == 0
+		if hier {
+			tags["two-intermediate-hops-in-one-dataset"] = true
+		}
 		for h := 0; h < hops; h++ {
 			ds := c18Main
 			if h < hops-1 {
 				ds = links[h%2]
-				if hops == 3 && h == 0 && r.Intn(8) == 0 {
+				if hier {
+					ds = links[0]
+				}
+				if hops == 3 && h == 0 && !hier && r.Intn(3) == 0 {
 					ds = c18Main // path through the main dataset
 					tags["through-main"] = true
 				}
